@@ -140,3 +140,16 @@ reg("C08",
                      "resolved domain: numeric (oracle, 8 degree threshold, worst observed 5.1); the half-space footprint has no finite first moment, so there is no exact "
                      "infinite-domain statement to prove"],
     assumptions=["x = east, y = north (C17 orientation theorems)"])
+
+PBL_BRIDGES = T("Proofs.Bridge.PblK", "BLDFM.Bridge", ["psi_bridge", "phi_bridge", "closure_params_bridge", "grid_bridge", "profiles_bridge"], "bridge")
+
+reg("C09",
+    T("Proofs.C09", "BLDFM.C09", ["grid_bottom", "grid_meas", "grid_meas_index", "grid_strict_mono", "grid_top", "grid_reaches_top",
+                                  "wind_at_meas_ustar", "wind_at_meas_z0", "wind_vector_at_meas", "wind_at_meas_oaahoc",
+                                  "wind_direction_constant", "wind_no_reversal", "phi_pos", "Kz_pos", "mostm_split",
+                                  "ustar_z0_roundtrip", "z0_ustar_roundtrip", "psi_zero", "phi_zero"]) + PBL_BRIDGES,
+    kernel_groups=["PblK"],
+    partial_clauses=["np.arange length at float-rounding ties", "MOSTM along-wind diffusivity is zero by design: strict positivity is claimed for Kz and the isotropic closures",
+                     "psi' = (phi_M - 1)/x and continuity at neutral: decided by the oracle (scipy quad) until the HasDerivAt theorems land",
+                     "user-chosen stretch/domain_height outside the grid's valid range (last zeta >= aa gives a NaN top node): outside the stated quantifier, not raised"],
+    assumptions=["0 < z0 < zm", "0 < h", "n >= 1", "(um, vm) != 0", "0 < log(zm/z0) + psi(zm/L) for z0 forcing (positive wind)"])
